@@ -108,6 +108,7 @@ type pathState struct {
 	deadlocked   bool
 	deadlockDesc string
 	preemptions  int
+	schedForks   int
 	sampleWanted bool
 	choices      int
 	dom          map[*sym.Term]sym.Set256
